@@ -29,10 +29,12 @@ import (
 	stdjson "encoding/json"
 	"fmt"
 	"os"
+	"runtime"
 	"sort"
 	"strconv"
 	"strings"
 	"sync"
+	"sync/atomic"
 	"testing"
 	"time"
 
@@ -56,13 +58,90 @@ const (
 	c01hCluster  = "c01http"
 )
 
-// generous; only ever produces a HARNESS error
+// generous; only ever produces a HARNESS error. Measured on the harness' own
+// progress clock (c01hTicks), not on the wall clock: see c01hDeadline.
 var c01hTimeout = func() time.Duration {
 	if ms, err := strconv.Atoi(os.Getenv("VERIF_C01H_TIMEOUT_MS")); err == nil && ms > 0 {
 		return time.Duration(ms) * time.Millisecond
 	}
-	return 20 * time.Second
+	return 60 * time.Second
 }()
+
+// The progress clock: a goroutine of this process that sleeps c01hTick and then
+// counts one tick. A wait gives up after c01hTimeout/c01hTick TICKS. On an idle
+// machine that is c01hTimeout of wall time. When the whole process is frozen or
+// starved (observed on the shared build machine: a neighbour's test binaries
+// drove the machine into the OOM killer, everything stalled for tens of seconds
+// and a 20 s wall-clock deadline fired twice in a unit that needs 4 s of CPU),
+// the ticker is frozen / starved with it: one long sleep is ONE tick, so the
+// deadline only advances while goroutines of this process are being scheduled
+// (every runnable goroutine of mosn gets the processor between two ticks as
+// surely as the ticker does). A genuine hang (a goroutine that waits for
+// something that never comes) still runs into the deadline.
+const c01hTick = 10 * time.Millisecond
+
+var (
+	c01hTicks     int64
+	c01hClockOnce sync.Once
+)
+
+type c01hDeadline struct{ at int64 }
+
+func c01hNewDeadline() c01hDeadline {
+	c01hClockOnce.Do(func() {
+		go func() {
+			for {
+				time.Sleep(c01hTick)
+				atomic.AddInt64(&c01hTicks, 1)
+			}
+		}()
+	})
+	return c01hDeadline{at: atomic.LoadInt64(&c01hTicks) + int64(c01hTimeout/c01hTick) + 1}
+}
+
+func (d c01hDeadline) expired() bool { return atomic.LoadInt64(&c01hTicks) >= d.at }
+
+// c01hRecovered counts cases whose first run timed out and whose re-run (alone,
+// on fresh connections) completed: reported per part as timeouts_recovered_by_rerun.
+var c01hRecovered int64
+
+func c01hIsTimeout(harness string) bool { return strings.Contains(harness, "timeout") }
+
+// c01hRerun runs a case and, if a wait of it timed out, once more on fresh
+// connections before a harness error is declared: a case that hangs because of
+// what it IS hangs again; one that was a victim of the machine does not.
+func c01hRerun[T any](run func() (T, string)) (T, string) {
+	obs, h := run()
+	if !c01hIsTimeout(h) {
+		return obs, h
+	}
+	fmt.Fprintf(os.Stderr, "C01 http: first run timed out (%s); running the case again on fresh connections\n", h)
+	obs2, h2 := run()
+	if c01hIsTimeout(h2) {
+		return obs2, h2 + " [twice: the case was run again on fresh connections and timed out again; first run: " + h + "]"
+	}
+	atomic.AddInt64(&c01hRecovered, 1)
+	return obs2, h2
+}
+
+// c01hReportRecovered is called by every part before End.
+func c01hReportRecovered(p *vreport.Part) {
+	if n := atomic.SwapInt64(&c01hRecovered, 0); n > 0 {
+		p.Count("timeouts_recovered_by_rerun", int(n))
+	}
+}
+
+var c01hDumpOnce sync.Once
+
+// c01hDump writes the stacks of all goroutines to stderr (the unit's log) the
+// first time a wait times out: what tells starvation from a hang.
+func c01hDump(what string) {
+	c01hDumpOnce.Do(func() {
+		buf := make([]byte, 1<<20)
+		n := runtime.Stack(buf, true)
+		fmt.Fprintf(os.Stderr, "C01 http: TIMEOUT (%s) - goroutines:\n%s\n", what, buf[:n])
+	})
+}
 
 // ---------------------------------------------------------------------------
 // HTTP/1 text: builder and the harness' own parser (independent of fasthttp)
@@ -358,8 +437,9 @@ func (r *c01hRec) notify() {
 
 // wait blocks until pred (evaluated under the lock) holds.
 func (r *c01hRec) wait(what string, pred func() bool) error {
-	deadline := time.NewTimer(c01hTimeout)
-	defer deadline.Stop()
+	deadline := c01hNewDeadline()
+	poll := time.NewTimer(500 * time.Microsecond)
+	defer poll.Stop()
 	for {
 		r.mu.Lock()
 		ok := pred()
@@ -367,11 +447,14 @@ func (r *c01hRec) wait(what string, pred func() bool) error {
 		if ok {
 			return nil
 		}
+		if deadline.expired() {
+			c01hDump("waiting for: " + what)
+			return fmt.Errorf("timeout (%v) waiting for: %s", c01hTimeout, what)
+		}
 		select {
 		case <-r.sig:
-		case <-time.After(500 * time.Microsecond): // conditions that no connection write / event announces
-		case <-deadline.C:
-			return fmt.Errorf("timeout (%v) waiting for: %s", c01hTimeout, what)
+		case <-poll.C: // conditions that no connection write / event announces
+			poll.Reset(500 * time.Microsecond)
 		}
 	}
 }
@@ -392,11 +475,25 @@ func c01hInject(c *vfake.Conn, b []byte, what string) error {
 		defer close(done)
 		c.InjectRead(b)
 	}()
-	select {
-	case <-done:
-		return nil
-	case <-time.After(c01hTimeout):
-		return fmt.Errorf("timeout (%v): %s was not consumed", c01hTimeout, what)
+	deadline := c01hNewDeadline()
+	poll := time.NewTimer(c01hTick)
+	defer poll.Stop()
+	for {
+		select {
+		case <-done:
+			return nil
+		case <-poll.C:
+			poll.Reset(c01hTick)
+		}
+		if deadline.expired() {
+			select {
+			case <-done:
+				return nil
+			default:
+			}
+			c01hDump(what + " was not consumed")
+			return fmt.Errorf("timeout (%v): %s was not consumed", c01hTimeout, what)
+		}
 	}
 }
 
@@ -470,6 +567,10 @@ func (s *c01hSession) close() {
 
 // c01hRun performs one exchange on fresh connections.
 func c01hRun(c *c01hCase) (obs c01hObs, harness string) {
+	return c01hRerun(func() (c01hObs, string) { return c01hRunOnce(c) })
+}
+
+func c01hRunOnce(c *c01hCase) (obs c01hObs, harness string) {
 	s, h := c01hNewSession()
 	if h != "" {
 		return obs, h
@@ -481,6 +582,10 @@ func c01hRun(c *c01hCase) (obs c01hObs, harness string) {
 // c01hRunSeq performs the exchanges one after the other on the same downstream
 // connection (keep-alive; the pool is free to reuse the upstream connection).
 func c01hRunSeq(cs []c01hCase) (obs []c01hObs, harness string) {
+	return c01hRerun(func() ([]c01hObs, string) { return c01hRunSeqOnce(cs) })
+}
+
+func c01hRunSeqOnce(cs []c01hCase) (obs []c01hObs, harness string) {
 	s, h := c01hNewSession()
 	if h != "" {
 		return nil, h
@@ -570,7 +675,7 @@ func (s *c01hSession) exchange(c *c01hCase) (obs c01hObs, harness string) {
 		}
 	}
 	// the exchange is over when the proxy has released the stream
-	deadline := time.Now().Add(c01hTimeout)
+	deadline := c01hNewDeadline()
 	for {
 		p.asMux.RLock()
 		n := p.activeStreams.Len()
@@ -578,7 +683,8 @@ func (s *c01hSession) exchange(c *c01hCase) (obs c01hObs, harness string) {
 		if n == 0 {
 			break
 		}
-		if time.Now().After(deadline) {
+		if deadline.expired() {
+			c01hDump("the proxy still has an active stream")
 			return obs, "timeout: the proxy still has an active stream after the response was written"
 		}
 		time.Sleep(20 * time.Microsecond)
@@ -912,6 +1018,7 @@ func TestVerifC01HTTP1Targets(t *testing.T) {
 		p.Distinct(c.Target)
 		c01hCheck(p, c)
 	})
+	c01hReportRecovered(p)
 	p.End(complete,
 		fmt.Sprintf("request-targets = (('/' | paths of 1..%d segments over {a,%%2F,%%20,%%41,..,.,\"\",*,a+b,%%C3%%A4}) x queries {absent, ?, ?a=b, ?a=%%20&b, ?=, ?a=b?c} + "+strconv.Itoa(len(c01hExtraTargets))+" further targets (lower-case hex, sub-delims, matrix parameters, query edge forms, slash runs, dot segments, %%00, a 2.8 KB target)) x {GET, POST with a body}, plus asterisk-form '*' with OPTIONS and GET; one full exchange each through the real proxy (HTTP/1 listener side, router prefix '/', HTTP/1 pool, client stream) on fresh connections", maxSeg),
 		"complete product; distinct = request-target; compared: method, request-target byte-for-byte, header multiset (names case-insensitive, values byte-for-byte; Connection / Content-Length / Transfer-Encoding framing not compared; Date added when absent and the Host default not compared; header name case and the HTTP version are enumerated, not compared), body; response: status code, header multiset, body (reason phrase not compared)")
@@ -977,6 +1084,7 @@ func TestVerifC01HTTP1Headers(t *testing.T) {
 	} else {
 		bound += "; quick: full product of the request sets x response sets of <= 2 fields, every 3-field set with 2 sets of the other direction (the full product is the thorough tier)"
 	}
+	c01hReportRecovered(p)
 	p.End(complete, bound,
 		"distinct = (method, request fields, response fields); header multiset compared as in part http1-request-targets; a body-carrying message without Content-Type and a response carrying Date are part of the alphabet (they expose the recorded default Content-Type / Date findings)")
 }
@@ -1068,6 +1176,7 @@ func TestVerifC01HTTP1Bodies(t *testing.T) {
 		p.Distinct(fmt.Sprintf("%s|%s|%s|%d|%s|%s", c.Method, c.ReqBody, c.ReqFraming, c.Status, c.RespBody, c.RespFrame))
 		c01hCheck(p, c)
 	})
+	c01hReportRecovered(p)
 	p.End(complete,
 		fmt.Sprintf("methods {POST,PUT,PATCH,DELETE,OPTIONS,PURGE} x request bodies %v (z<n> = n patterned bytes, all = every byte value) x framings %v; body-less {GET,HEAD,DELETE,OPTIONS,PURGE,POST,PUT}; GET/HEAD carrying a body; response bodies x framings x {200,404,500}; status codes %v x {empty, small body} x {GET,HEAD,POST}", bodies, framings, statuses),
 		"complete products as listed; distinct = (method, request body, request framing, status, response body, response framing); the body is compared after removing the transfer framing on both sides (Content-Length vs chunked is MOSN's choice, not compared)")
@@ -1177,6 +1286,7 @@ func TestVerifC01HTTP1KeepAlive(t *testing.T) {
 			p.Sample(map[string]interface{}{"sequence": names})
 		}
 	})
+	c01hReportRecovered(p)
 	p.End(complete,
 		fmt.Sprintf("all sequences of %d exchanges over an alphabet of %d diverse exchanges (GET/HEAD/POST/PUT/DELETE/OPTIONS, targets with escapes and queries, 0..3 request and 0..4 response fields incl. repeated names / empty values / Cookie / Set-Cookie, bodies none / 0 / 1 / all byte values / 4096 / 4097 / 8192 with Content-Length and chunked, status 200/201/204/302/304/404/500) on ONE keep-alive downstream connection (the HTTP/1 pool may reuse the upstream connection)", n, len(alpha)),
 		"complete product; every exchange of a sequence is judged like a single exchange; a finding of a later exchange that the same exchange does not show on fresh connections is reported under its own keep-alive key (state of an earlier message leaking into a later one)")
